@@ -439,7 +439,7 @@ func (i *BigInt) DivideBigInt(other *BigInt) (Value, Value) {
 	if other.IsZero() {
 		return Undefined, Ref(NewZeroDivisionError())
 	}
-	result := ToElkBigInt((&big.Int{}).Div(i.ToGoBigInt(), other.ToGoBigInt()))
+	result := ToElkBigInt((&big.Int{}).Quo(i.ToGoBigInt(), other.ToGoBigInt()))
 	if result.IsSmallInt() {
 		return result.ToSmallInt().ToValue(), Undefined
 	}
@@ -457,7 +457,7 @@ func (i *BigInt) DivideSmallInt(other SmallInt) (Value, Value) {
 		return Undefined, Ref(NewZeroDivisionError())
 	}
 	oBigInt := big.NewInt(int64(other))
-	oBigInt.Div(i.ToGoBigInt(), oBigInt)
+	oBigInt.Quo(i.ToGoBigInt(), oBigInt)
 	result := ToElkBigInt(oBigInt)
 	if result.IsSmallInt() {
 		return result.ToSmallInt().ToValue(), Undefined
